@@ -35,7 +35,7 @@ def run(ctx):
     for line in g.out.splitlines():
         if line.startswith('<<"HIST", '):
             stim.append({"kinds": json.loads(json.loads(line[len('<<"HIST", '):-2]))})
-    all_kinds = ["plainOK", "plainSepCon", "plainCancel", "plainExpire", "plainRst", "dupToken", "bwUpOK", "bwUpCancel", "bwUpRefused", "bwDownOK", "bwDownAbandon", "bwDownStall", "obsOK", "obsCancel",
+    all_kinds = ["plainOK", "plainSepCon", "plainCancel", "plainExpire", "plainRst", "plainBodyFail", "kaMissed", "dupToken", "bwUpOK", "bwUpCancel", "bwUpRefused", "bwDownOK", "bwDownAbandon", "bwDownStall", "obsOK", "obsCancel",
                  "obsFail", "obsSilentCancel", "pingOK", "pingCancel", "pingAsyncOK", "oneWay", "srvReq", "srvReqNon", "srvReqNoResp", "srvReqHijack", "srvBwUpAbandon", "srvBwDownAbandon", "srvBwDownRetry", "tickEarly", "tickBw", "tickLate"]
     stim.append({"kinds": all_kinds})
     spath = os.path.join(ctx.work, "stimuli.ndjson")
